@@ -112,7 +112,7 @@ fn check(st: &ChainSt, added: &[(String, Vec<u8>)]) -> (Option<(String, String)>
     let Some(base) = &st.flow else { return (None, false) };
     let despite = added.iter().any(|(k, _)| k.eq_ignore_ascii_case("content-length") || k.eq_ignore_ascii_case("transfer-encoding"));
     // effective headers per the reference: added + originals minus inherited-suppressed
-    let suppressed = |name: &str| -> bool { st.hop > 0 && (name == "cookie" || name == "content-length" || (name == "authorization" && !st.auth_may)) };
+    let suppressed = |name: &str| -> bool { st.hop > 0 && (name == "cookie" || name == "content-length" || (name == "authorization" && !st.auth_may) || (name == "host" && st.host_dropped)) };
     let origs: Vec<(String, Vec<u8>)> = st.cfg.req.orig.iter().filter(|(k, _)| !suppressed(k)).cloned().collect();
     let eff: Vec<(String, &[u8])> = added.iter().map(|(k, v)| (k.to_ascii_lowercase(), &v[..])).chain(origs.iter().map(|(k, v)| (k.clone(), &v[..]))).collect();
     let hosts: Vec<&[u8]> = eff.iter().filter(|h| h.0 == "host").map(|h| h.1).collect();
